@@ -28,6 +28,11 @@ def Lit(idx):
     return C("Literal", C("String", S("text%d" % idx), I(idx)))
 
 
+def LitT(idx, text_):
+    """a literal with this exact text (white space only, empty): it is a piece like any other"""
+    return C("Literal", C("String", S(text_), I(idx)))
+
+
 def Num(kind, n):
     return C("Literal", C(kind, I(n)))
 
@@ -74,6 +79,7 @@ def universe():
         ("resolved reference", Bloc(Lit(0), Fk(Bloc(Lit(1), Var("var_x"))), Lit(2))), ("reference to a reference", Fk(Fk(Bloc(Var("var_x"), Lit(4))))),
         ("bloc inside a bloc", Bloc(Lit(0), Bloc(Var("var_x"), Bloc(Lit(1), Lit(2))), Var("var_y"))),
         ("range and plural among text", Bloc(Lit(0), Rng(1), Lit(1), Plu(2), Var("var_x"))), ("range alone", Rng(3)), ("plural inside a component", Comp("comp_b", Plu(4))),
+        ("white space between two variables", Bloc(Var("var_x"), LitT(1, " "), Var("var_y"))), ("the empty string", LitT(0, "")), ("a line end before a variable", Bloc(LitT(2, "\n"), Var("var_x"))),
         ("empty bloc", Bloc()), ("27 pieces", many(27)), ("60 pieces", many(60)), ("26 pieces", many(26)),
     ]
     for fam, f in FORMATTERS.items():
